@@ -94,7 +94,8 @@ def run(chk: Check):
     plans = [(l, p, d, n, kd, k) for (l, p, d, n, kd) in plans]
     if not thorough:      # 4-sibling collisions in the quick tier: two pairs with one stem, duplicate groups generating the same counted name
         plans += [("akai files", ["A L", "A-L", "A R", "A-R", "A"], False, False, "akai", 4),
-                  ("roland samples", ["A L", "A-L", "A R", "A-R", "A (2)"], False, False, "other", 4)]
+                  ("roland samples", ["A L", "A-L", "A R", "A-R", "A (2)"], False, False, "other", 4),
+                  ("cdda titles", ["A L", "A R", "A-L", "A-R", "A"], False, True, "other", 3)]       # L/R titles must NOT be merged
     for label, pool, is_dir, nocomb, kind, k in plans:
         res = chk.run_model(naming.model(pool, k, is_dir, kind, no_combine=nocomb), label=f"design: {label}, <= {k} of {len(pool)} names",
                             timeout_s=3000)
